@@ -450,7 +450,24 @@ impl<D: DependencyProvider, RT: AsyncRuntime> Solver<D, RT> {
                     Encoder::new(&mut self.state, &self.cache, root_deps).encode([root_solvable]),
                 )?;
 
-                if let Some(clause_id) = conflicting_clauses.into_iter().next() {
+                // The encoder also reports clauses of candidates that were
+                // merely prefetched and are still undecided (e.g. a requirement
+                // whose candidates are all forbidden). Such a clause is unit,
+                // not violated, and must not make `root_solvable` unsolvable.
+                let violated_clause = conflicting_clauses.into_iter().find(|clause_id| {
+                    let mut violated = true;
+                    self.state.clauses.kinds[clause_id.to_usize()].visit_literals(
+                        &self.state.learnt_clauses,
+                        &self.state.requirement_to_sorted_candidates,
+                        |literal| {
+                            violated &=
+                                literal.eval(self.state.decision_tracker.map()) == Some(false)
+                        },
+                    );
+                    violated
+                });
+
+                if let Some(clause_id) = violated_clause {
                     return self.run_sat_process_unsolvable(
                         root_solvable,
                         starting_level,
